@@ -17,10 +17,12 @@ import Driver.LifeD
 import Driver.UtlsD
 import Driver.TimerD
 import Driver.DnsQD
+import Driver.AttrTreeD
 
 def main (args : List String) : IO UInt32 := do
   match args with
   | ["attrmap"] => Driver.AttrMapD.main; return 0
+  | ["attrtree"] => Driver.AttrTreeD.main; return 0
   | ["dnsq"] => Driver.DnsQD.main; return 0
   | ["timer"] => Driver.TimerD.main; return 0
   | ["life"] => Driver.LifeD.main; return 0
